@@ -10,6 +10,7 @@ Q == INSTANCE Sql
 Sem == INSTANCE Semantics
 RT == INSTANCE RoundTrip
 EJ == INSTANCE ExprJson
+RM == INSTANCE Render
 
 CONSTANTS ResFile, VerdictFile, Prop, Shards
 Groups == ndJsonDeserialize(ResFile)
@@ -110,6 +111,23 @@ CodecConf(c, key, r) == key \notin DOMAIN c \/ c[key].dec # "ok" \/ c[key].tree2
 CodecDrift(g) == IF Prop # "C12" THEN 0
                  ELSE Cardinality({i \in DOMAIN g.cases : ~(CodecConf(g.cases[i], "rt", g.cases[i].res) /\ CodecConf(g.cases[i], "rtdf", g.cases[i].resdf))})
 
+\* conformance of the driver model (Render.tla) with the real driver: predicted text and parameters = observed ones
+ParamsSame(mp, ps) == Len(mp) = Len(ps) /\ \A i \in DOMAIN ps : mp[i].ty = ps[i].ty /\ mp[i].v = ps[i].text
+RenderSame(m, r) == ~m.known \/ (m.ok = (r.out = "ok") /\ (m.ok => m.s = r.text /\ ParamsSame(m.params, r.params)))
+RenderConf(c) == "sql" \notin DOMAIN c \/ ~Ok(c.res)
+                 \/ (RenderSame(RM!Inline(c.res.tree), c.sql.inline) /\ RenderSame(RM!Param(c.res.tree), c.sql.param))
+RenderKnown(c) == "sql" \in DOMAIN c /\ Ok(c.res) /\ RM!Inline(c.res.tree).known
+RenderDrift(g) == IF Prop \notin {"C03","C04"} THEN 0
+                  ELSE LET bad == {i \in DOMAIN g.cases : ~RenderConf(g.cases[i])} IN
+                       IF bad = {} THEN 0
+                       ELSE IF PrintT("RENDER-DRIFT " \o ToJson([q |-> g.cases[CHOOSE i \in bad : TRUE].res.q,
+                                                                 model |-> RM!Inline(g.cases[CHOOSE i \in bad : TRUE].res.tree).s,
+                                                                 model_param |-> RM!Param(g.cases[CHOOSE i \in bad : TRUE].res.tree).s,
+                                                                 code |-> g.cases[CHOOSE i \in bad : TRUE].sql.inline.text,
+                                                                 code_param |-> g.cases[CHOOSE i \in bad : TRUE].sql.param.text]))
+                            THEN Cardinality(bad) ELSE 0
+RenderPredicted(g) == IF Prop \notin {"C03","C04"} THEN 0 ELSE Cardinality({i \in DOMAIN g.cases : RenderKnown(g.cases[i])})
+
 Judge(g) == CASE Prop = "C12" -> C12(g) [] Prop = "C03" -> C03(g) [] Prop = "C04" -> C04(g) [] Prop = "C05" -> C05(g) [] Prop = "C07" -> C07(g) [] Prop = "C09" -> C09(g)
               [] Prop = "C10" -> C10(g) [] Prop = "C11" -> C11(g) [] Prop = "C06" -> C06(g) [] Prop = "C01" -> C01(g)
 
@@ -124,11 +142,11 @@ Relevant(c) == CASE Prop = "C05" -> c.kind \in {"min","paren"} [] Prop = "C07" -
 \* one TLC state per group, so the state count is the number of trees judged
 \* the file is judged in Shards independent behaviours (shard sh takes lines sh+1, sh+1+Shards, ...), which
 \* TLC explores in parallel with -workers
-VARIABLES sh, n, last, fails, kfs, judged, nfail, nkf, ndrift
-jvars == <<sh, n, last, fails, kfs, judged, nfail, nkf, ndrift>>
+VARIABLES sh, n, last, fails, kfs, judged, nfail, nkf, ndrift, nrdrift, npred
+jvars == <<sh, n, last, fails, kfs, judged, nfail, nkf, ndrift, nrdrift, npred>>
 Open(f)  == SelectSeq(f, LAMBDA v : v.kf = "none")
 Known(f) == SelectSeq(f, LAMBDA v : v.kf # "none")
-Init == sh \in 0..(Shards - 1) /\ n = sh /\ last = <<>> /\ fails = <<>> /\ kfs = <<>> /\ judged = 0 /\ nfail = 0 /\ nkf = 0 /\ ndrift = 0
+Init == sh \in 0..(Shards - 1) /\ n = sh /\ last = <<>> /\ fails = <<>> /\ kfs = <<>> /\ judged = 0 /\ nfail = 0 /\ nkf = 0 /\ ndrift = 0 /\ nrdrift = 0 /\ npred = 0
 \* each step judges one line into `last` (evaluated exactly once) and files the previous line's verdicts
 Next == /\ n < Len(Groups) + Shards /\ n' = n + Shards /\ UNCHANGED sh
         /\ last' = IF n < Len(Groups) THEN GroupFails(Groups[n + 1]) ELSE <<>>
@@ -137,8 +155,11 @@ Next == /\ n < Len(Groups) + Shards /\ n' = n + Shards /\ UNCHANGED sh
         /\ nfail' = nfail + Len(Open(last)) /\ nkf' = nkf + Len(Known(last))
         /\ judged' = judged + (IF n < Len(Groups) THEN Cardinality({i \in DOMAIN Groups[n + 1].cases : Relevant(Groups[n + 1].cases[i])}) ELSE 0)
         /\ ndrift' = ndrift + (IF n < Len(Groups) THEN CodecDrift(Groups[n + 1]) ELSE 0)
+        /\ nrdrift' = nrdrift + (IF n < Len(Groups) THEN RenderDrift(Groups[n + 1]) ELSE 0)
+        /\ npred' = npred + (IF n < Len(Groups) THEN RenderPredicted(Groups[n + 1]) ELSE 0)
 Spec == Init /\ [][Next]_jvars
 Report == n >= Len(Groups) + Shards =>
-            /\ PrintT("JUDGED " \o ToJson([prop |-> Prop, shard |-> sh, judged |-> judged, failures |-> nfail, known |-> nkf, drift |-> ndrift]))
+            /\ PrintT("JUDGED " \o ToJson([prop |-> Prop, shard |-> sh, judged |-> judged, failures |-> nfail, known |-> nkf, drift |-> ndrift,
+                                                render_drift |-> nrdrift, render_predicted |-> npred]))
             /\ ndJsonSerialize(VerdictFile \o "." \o ToString(sh), fails \o kfs)
 =======================================================================
